@@ -86,6 +86,15 @@ def main(tier):
         total += ev.parts[part]["replay"]["behaviours"]
         st = next(o for o in g.obs if o and o["n"] >= 3)
         ev.sample({"part": part, "state_obs": st}, 2)
+    # code -> spec beyond the bounded model: free-running insert / remove_last histories on complexes with up to 12 cells
+    # over Z3 (and Z2), the returned supports logged and judged by Trace_PersistenceMatrix.tla (RepsOK: no repetition,
+    # dimension, youngest cell = birth, a cycle with non-zero coefficients on exactly the support) together with the
+    # matrix identities; configurations covered by a listed finding do not log their cycles (harness/pm_model.hpp)
+    nw = 12 if tier == "quick" else 120
+    unknown += pm_common.trace_part(ev, PROP, "traces_reps_z3", 2, zpbins, 3, False, nw, 30, 12, MATCHERS, fnd,
+                                    extra_env={"VF_LOGREPS": "1"})
+    unknown += pm_common.trace_part(ev, PROP, "traces_reps_z2", 5, z2bins, 2, False, nw, 30, 12, MATCHERS, fnd,
+                                    extra_env={"VF_LOGREPS": "1"})
     witness_ids(fnd, z2bins)
     ev.cov["evaluations"] = total
     ev.cov["distinct_nontrivial"] = ev.cov["states"]
